@@ -135,7 +135,12 @@ class FuncFacts(object):
         for v in self.assigns.get(name, []):
             out |= self.prov(v, stack)
         for v in self.elem_of.get(name, []):
-            out |= self.prov(v, stack)
+            # an element of a container is what the container holds, also when only the named object itself is asked for
+            saved, self.eff.own_mode = self.eff.own_mode, False
+            try:
+                out |= self.prov(v, stack)
+            finally:
+                self.eff.own_mode = saved
         if not own:
             for v in self.stored_into.get(name, []):
                 out |= {x for x in self.prov(v, stack) if x != "fresh"}
@@ -164,6 +169,13 @@ class FuncFacts(object):
             if isinstance(e.slice, ast.Slice):
                 # records: CircularRecord.__getitem__ deep-copies (rule getitem.deepcopy); lists/str: new object
                 return {"fresh"}
+            if self.eff.own_mode:
+                # an element taken out of a container: what the container holds counts again
+                saved, self.eff.own_mode = True, False
+                try:
+                    return self.prov(e.value, stack)
+                finally:
+                    self.eff.own_mode = saved
             return self.prov(e.value, stack)
         if isinstance(e, ast.Call):
             f = e.func
@@ -233,6 +245,8 @@ class FuncFacts(object):
                 out |= self.prov(v, stack)
             return out
         if isinstance(e, (ast.List, ast.Tuple, ast.Set)):
+            if self.eff.own_mode:
+                return {"fresh"}  # the display itself is a new object, whatever it holds
             out = {"fresh"}
             for v in e.elts:
                 out |= {x for x in self.prov(v, stack) if x != "fresh"}
@@ -522,6 +536,11 @@ def classify_input_write(site: Site) -> Optional[str]:
     pstr = effective_path(site)
     is_deref, is_ref = site.fi is deref_f, site.fi is ref_f
     slot = site.kind == "store" and pstr.rstrip().endswith("]") and ((".qualifiers" in pstr and "citation" in pstr) or _is_citation_list(site, root))
+    if site.kind == "store":
+        from .roles import citation_value_stores
+        callers = citation_value_stores(site.fi.module.program).get(id(site.fi))
+        if callers is not None and callers and all(f is deref_f or f is ref_f for f in callers):
+            return "A1/A2 citation slot store through the citation value object (called by %s only)" % ", ".join(sorted(f.name for f in callers))
     if is_deref and slot:
         return "A1 citation slot store (dereference)"
     if is_ref and slot:
@@ -621,6 +640,11 @@ def _norm_stmt(t: str) -> str:
     return re.sub(r"[^A-Za-z0-9_.\[\]=+]", "", t)[:60]
 
 
+def _is_value_store(p, s: Site) -> bool:
+    from .roles import citation_value_stores
+    return id(s.fi) in citation_value_stores(p)
+
+
 def feature_writers(ctx, rule: str, eff: Effects, sites: List[Site]):
     """C08 (c): along the assembly path the only writer of a feature list is
     add_as_source (append) and the only writer of a qualifier is the citation
@@ -635,16 +659,17 @@ def feature_writers(ctx, rule: str, eff: Effects, sites: List[Site]):
             continue
         if ".features" in pstr and not ".qualifiers" in pstr:
             seen.add(key)
-            ok = s.fi.qualname == "moclo.core._utils.add_as_source" and s.kind == "call:append"
+            from .roles import source_annotator
+            ok = s.fi is source_annotator(eff.p) and s.kind == "call:append"
             r.ob(rule + ".feature-list-writer", "%s@%s" % (s.fi.qualname, _norm_stmt(s.text())), ok,
                  "the feature list of a record on the assembly path is modified outside add_as_source's append: `%s`" % s.text(), s.where)
-        elif ".qualifiers" in pstr or (s.kind == "store" and _is_citation_list(s, root)):
+        elif ".qualifiers" in pstr or (s.kind == "store" and _is_citation_list(s, root)) or (s.kind == "store" and _is_value_store(eff.p, s)):
             seen.add(key)
-            ok = classify_input_write(s) in ("A1 citation slot store (dereference)", "A2 citation slot store (re-reference)")
+            ok = (classify_input_write(s) or "").startswith(("A1 citation slot store", "A2 citation slot store", "A1/A2 citation slot store"))
             r.ob(rule + ".qualifier-writer", "%s@%s" % (s.fi.qualname, _norm_stmt(s.text())), ok,
                  "an inherited qualifier is modified outside the citation rewrite: `%s`" % s.text(), s.where)
     r.floor(rule + ".feature-list-writer", 1)
-    r.floor(rule + ".qualifier-writer", 2)
+    r.floor(rule + ".qualifier-writer", 1)  # one shared slot store when the rewrite goes through a value object
 
 
 # ---------------------------------------------------------------------------
@@ -677,7 +702,10 @@ def persistent_state_rule(ctx, rule: str, scope_modules=("moclo.core._structured
             for mn in scope_modules:
                 m = p.modules.get(mn)
                 if m is None:
-                    raise AnalysisError("anchor vanished: module %s" % mn)
+                    # a helper module may be folded into another one; the modules that define the classes must exist
+                    if mn in ("moclo.core._structured", "moclo.regex", "moclo.record"):
+                        raise AnalysisError("anchor vanished: module %s" % mn)
+                    continue
                 for ci in m.classes.values():
                     for a, v in ci.attrs.items():
                         if isinstance(v, FuncInfo):
@@ -1357,3 +1385,225 @@ def groupby_rule(ctx, rule: str):
             else:
                 raise AnalysisError("%s: groupby key `%s` over an iterable sorted by `%s`: whether equal group keys are adjacent is not decided"
                                     % (where, ast.unparse(gkey) if gkey is not None else None, ast.unparse(skey) if skey is not None else None))
+
+
+# ---------------------------------------------------------------------------
+# locations the library builds stay movable
+
+
+_LOCATION_CTORS = {"Bio.SeqFeature.FeatureLocation", "Bio.SeqFeature.SimpleLocation"}
+
+
+def location_ref_rule(ctx, rule: str):
+    """Biopython never shifts nor flips a location that carries a ``ref`` (it
+    denotes another entry): a feature the library itself places on a record
+    with such a location stays where it was when the record is rotated or
+    reverse-complemented.  Every FeatureLocation the repo builds therefore
+    passes no ref / ref_db, or carries over the one of the location it
+    rebuilds (``ref=part.ref``)."""
+    p = ctx.program
+    r = ctx.report
+    n = 0
+    for mn, m in sorted(p.modules.items()):
+        if not mn.startswith("moclo"):
+            continue
+        for node in ast.walk(m.tree):
+            if not isinstance(node, ast.Call):
+                continue
+            try:
+                tgt = p.resolve_expr(m, node.func)
+            except Exception:
+                tgt = None
+            if not (isinstance(tgt, Ext) and tgt.dotted in _LOCATION_CTORS):
+                continue
+            n += 1
+            given = {}
+            for i, a in enumerate(node.args):
+                if isinstance(a, ast.Starred):
+                    given["*"] = a
+                elif i >= 3:
+                    given[("ref", "ref_db")[i - 3] if i < 5 else "extra"] = a
+            for k in node.keywords:
+                if k.arg is None:
+                    given["**"] = k.value
+                elif k.arg in ("ref", "ref_db"):
+                    given[k.arg] = k.value
+            bad = []
+            for name, v in given.items():
+                if name in ("*", "**"):
+                    bad.append("%s%s hides what is passed" % (name, ast.unparse(v)))
+                elif isinstance(v, ast.Constant) and v.value is None:
+                    continue
+                elif isinstance(v, ast.Attribute) and v.attr == name:
+                    continue  # carried over from the location being rebuilt
+                else:
+                    bad.append("%s=%s" % (name, ast.unparse(v)))
+            r.ob(rule, "%s#%s" % (mn, _norm_stmt(ast.unparse(node))[:60]), not bad,
+                 "a location built by the library refers to another entry (%s): Biopython leaves such a location where it is when the "
+                 "record is rotated or reverse-complemented, so the feature then denotes other nucleotides" % "; ".join(bad),
+                 "%s:%d" % (m.relpath, node.lineno))
+    r.analysed["location_constructions"] = n
+    r.floor(rule, 1)
+
+
+# ---------------------------------------------------------------------------
+# the constructor's topology check is the only door to a circular record
+
+
+def _flat_targets(t):
+    if isinstance(t, (ast.Tuple, ast.List)):
+        for x in t.elts:
+            yield from _flat_targets(x)
+    elif isinstance(t, ast.Starred):
+        yield from _flat_targets(t.value)
+    else:
+        yield t
+
+
+def _safe_topology_value(v) -> bool:
+    return isinstance(v, ast.Constant) and isinstance(v.value, str) and v.value.lower() == "circular"
+
+
+def _safe_annotation_map(v) -> bool:
+    """a dict display / dict(k=v) that cannot declare a non-circular topology"""
+    if isinstance(v, ast.Dict):
+        for k, x in zip(v.keys, v.values):
+            if k is None:
+                return False
+            if not isinstance(k, ast.Constant):
+                return False
+            if k.value == "topology" and not _safe_topology_value(x):
+                return False
+        return True
+    if isinstance(v, ast.Call) and isinstance(v.func, ast.Name) and v.func.id == "dict" and not v.args:
+        return all(k.arg is not None and (k.arg != "topology" or _safe_topology_value(k.value)) for k in v.keywords)
+    return False
+
+
+def gate_bypasses(fn, is_circular_ctor) -> Tuple[Set[str], List[Tuple[int, str]]]:
+    """(locals bound to a freshly constructed circular record, [(line, statement that gives one of them annotations the
+    constructor never saw)])"""
+    circ: Set[str] = set()
+    for n in _own_nodes_of(fn):
+        if isinstance(n, (ast.Assign, ast.AnnAssign)) and isinstance(n.value, ast.Call) and is_circular_ctor(n.value.func):
+            for t in (n.targets if isinstance(n, ast.Assign) else [n.target]):
+                if isinstance(t, ast.Name):
+                    circ.add(t.id)
+        if isinstance(n, ast.NamedExpr) and isinstance(n.value, ast.Call) and is_circular_ctor(n.value.func):
+            circ.add(n.target.id)
+    if not circ:
+        return circ, []
+
+    def is_ann(e):
+        return isinstance(e, ast.Attribute) and e.attr == "annotations" and isinstance(e.value, ast.Name) and e.value.id in circ
+
+    alias = set()
+    for n in _own_nodes_of(fn):
+        if isinstance(n, ast.Assign) and is_ann(n.value):
+            alias |= {t.id for t in n.targets if isinstance(t, ast.Name)}
+
+    def is_map(e):
+        return is_ann(e) or (isinstance(e, ast.Name) and e.id in alias)
+
+    bad: List[Tuple[int, str]] = []
+    for n in _own_nodes_of(fn):
+        if isinstance(n, (ast.Assign, ast.AnnAssign, ast.AugAssign)):
+            targets = n.targets if isinstance(n, ast.Assign) else [n.target]
+            for tt in targets:
+                flat = list(_flat_targets(tt))
+                for t in flat:
+                    if is_ann(t) and isinstance(t.ctx, ast.Store):
+                        if len(flat) == 1 and n.value is not None and _safe_annotation_map(n.value) and not isinstance(n, ast.AugAssign):
+                            continue
+                        bad.append((n.lineno, ast.unparse(n)))
+                    elif isinstance(t, ast.Subscript) and is_map(t.value):
+                        k = t.slice
+                        if isinstance(k, ast.Constant) and k.value != "topology":
+                            continue
+                        if isinstance(k, ast.Constant) and len(flat) == 1 and n.value is not None and _safe_topology_value(n.value):
+                            continue
+                        bad.append((n.lineno, ast.unparse(n)))
+        elif isinstance(n, ast.Call):
+            f = n.func
+            if isinstance(f, ast.Attribute) and is_map(f.value) and f.attr in ("update", "setdefault", "__setitem__", "__ior__"):
+                if f.attr == "update":
+                    if all(_safe_annotation_map(a) for a in n.args) and all(k.arg is not None and (k.arg != "topology" or _safe_topology_value(k.value)) for k in n.keywords):
+                        continue
+                elif n.args and isinstance(n.args[0], ast.Constant) and (n.args[0].value != "topology" or (len(n.args) > 1 and _safe_topology_value(n.args[1]))):
+                    continue
+                bad.append((n.lineno, ast.unparse(n)))
+            if isinstance(f, ast.Name) and f.id == "setattr" and len(n.args) == 3 and isinstance(n.args[0], ast.Name) and n.args[0].id in circ:
+                a = n.args[1]
+                if isinstance(a, ast.Constant) and a.value != "annotations":
+                    continue
+                bad.append((n.lineno, ast.unparse(n)))
+            if isinstance(f, ast.Attribute) and f.attr == "update" and isinstance(f.value, ast.Attribute) and f.value.attr == "__dict__" \
+                    and isinstance(f.value.value, ast.Name) and f.value.value.id in circ:
+                bad.append((n.lineno, ast.unparse(n)))
+    return circ, bad
+
+
+def _own_nodes_of(fn):
+    stack = list(fn.body)
+    while stack:
+        n = stack.pop()
+        yield n
+        if isinstance(n, (ast.FunctionDef, ast.AsyncFunctionDef, ast.ClassDef)):
+            continue
+        stack.extend(ast.iter_child_nodes(n))
+
+
+_GATE_FIXTURE = '''
+def bypass(rec):
+    record = CircularRecord(rec.seq, rec.id)
+    record.features, record.annotations = rec.features, rec.annotations
+    return record
+def fine(rec):
+    record = CircularRecord(rec)
+    record.annotations["topology"] = "circular"
+    record.annotations["comment"] = rec.id
+    return record
+'''
+
+
+def topology_gate_rule(ctx, rule: str):
+    """"A record declared linear cannot be wrapped as circular": the check sits
+    in CircularRecord's constructor, so it binds only if nothing hands a
+    freshly built circular record annotations the constructor never saw.  For
+    every function of the repo that builds a CircularRecord (or a subclass)
+    into a local: no whole-map store / update / topology write on that local's
+    annotations other than a constant that declares a circle."""
+    p = ctx.program
+    r = ctx.report
+    base = p.get_class("moclo.record.CircularRecord")
+
+    # the rule must see its own positive example on every run
+    tree = ast.parse(_GATE_FIXTURE)
+    fx = {f.name: gate_bypasses(f, lambda e: isinstance(e, ast.Name) and e.id == "CircularRecord") for f in tree.body}
+    if not (fx["bypass"][1] and fx["fine"][0] and not fx["fine"][1]):
+        raise AnalysisError("topology-gate: the rule no longer recognises its own fixture")
+    n = 0
+    for mn, m in sorted(p.modules.items()):
+        if not mn.startswith("moclo"):
+            continue
+
+        def is_ctor(e, m=m):
+            try:
+                v = p.resolve_expr(m, e)
+            except Exception:
+                return False
+            return isinstance(v, ClassInfo) and p.is_subclass(v, base)
+
+        funcs = list(m.functions.values())
+        for ci in m.classes.values():
+            funcs += [v for v in ci.attrs.values() if isinstance(v, FuncInfo) and v.module is m]
+        for fi in funcs:
+            circ, bad = gate_bypasses(fi.node, is_ctor)
+            if not circ:
+                continue
+            n += 1
+            r.ob(rule, fi.qualname, not bad,
+                 "a freshly built circular record is handed annotations its constructor never checked (a file or record that declares "
+                 "itself linear gets through): %s" % "; ".join("line %d `%s`" % b for b in bad), fi.where())
+    r.analysed["functions_building_circular_records"] = n
+    r.floor(rule, 2)
